@@ -321,6 +321,9 @@ func (g *G) basePlan(prop string, seed uint64) *Plan {
 	p := &Plan{Prop: prop, Seed: seed, Checks: map[string]bool{}}
 	sp := SourcePlan{Name: "s0", ChainID: uint64(g.between(1, 9999)), NURLs: g.between(1, 2), Batch: g.between(1, 12), Conc: g.between(1, 6),
 		PollMs: g.pickInt([]int{100, 250, 500, 1000}), InitLen: g.between(12, 50)}
+	if sp.NURLs > 1 && g.chance(60) {
+		sp.LagMax = g.between(1, 3)
+	}
 	p.Sources = []SourcePlan{sp}
 	p.Content = ContentPlan{TxMax: 3, LogMax: 3, TraceMax: 2, EmptyPct: 20}
 	for i := 0; i < 4; i++ {
@@ -347,6 +350,9 @@ func (g *G) transientFaults(p *Plan) {
 		f.PGPerMille = g.between(5, 100)
 	}
 	f.LostAck = g.chance(50)
+	if g.chance(25) {
+		f.EarlyRefuseEvery = g.between(10, 60)
+	}
 	f.Stall = g.chance(40)
 	if f.Stall {
 		f.JumpPerMille = 25
@@ -531,6 +537,12 @@ func GenC04(seed uint64) *Plan {
 		g.depGraph(p, uint64(g.between(4, 10)), 0)
 		for _, d := range p.Decls {
 			d.Sources = append(d.Sources, model.SrcRef{Name: p.Sources[1].Name, Start: d.Sources[0].Start})
+		}
+		if len(p.Decls) == 3 && g.chance(40) {
+			// the first referenced integration only indexes the second source:
+			// on the first source the dependent has nothing to wait for that
+			// will ever come, and must do nothing there
+			p.Decls[0].Sources = p.Decls[0].Sources[1:]
 		}
 		p.Idle = nil
 		p.Checks["deps"] = true
